@@ -214,6 +214,14 @@ def jobs(tier, seed):
                         chks.append(dict(name="%s %s %s[%d][%d]" % (sbx, mem, etag, N2, M2), fn=check_2d,
                                          kw=dict(mem=mem, etag=etag, N=N2, M=M2, stride=astride if mem == "app" else gs, log=log)))
                     out.append(Job("C17_%s_%s_%s_%d" % (sbx, mem, etag, gi), "\n".join(src) + "\n", chks, flags=["-fno-exceptions"]))
+    # arrays longer than the range of a narrow index type: a negative index must not alias a valid one after conversion
+    lsrc = [C.PRELUDE, "using S = B32;", kernel_src("app", "int", "int", 300, "schar"), kernel_src("sbx", "int", "int", 300, "schar"),
+            kernel_src("sbx", "char", "char", 40000, "short")]
+    out.append(Job("C17_B32_long_arrays", "\n".join(lsrc) + "\n",
+                   [dict(name="B32 app int[300] idx=schar", fn=check_idx, kw=dict(mem="app", etag="int", N=300, itag="schar", stride=4, log=32)),
+                    dict(name="B32 sbx int[300] idx=schar", fn=check_idx, kw=dict(mem="sbx", etag="int", N=300, itag="schar", stride=4, log=32)),
+                    dict(name="B32 sbx char[40000] idx=short", fn=check_idx, kw=dict(mem="sbx", etag="char", N=40000, itag="short", stride=1, log=32))],
+                   flags=["-fno-exceptions"]))
     # guest int wider than the application's int: sandbox-resident indices are narrowed
     wsrc = [C.PRELUDE, "using S = B32W;", kernel_src("app", "int", "int", 3, "tvint"), kernel_src("sbx", "int", "int", 3, "tvint")]
     out.append(Job("C17_B32W", "\n".join(wsrc) + "\n", [dict(name="B32W app int[3] idx=tainted_volatile<int> (64-bit guest int)", fn=check_idx_wide, kw=dict(mem="app", N=3, stride=4)),
